@@ -326,8 +326,21 @@ func findOrCreateMatchFileIfOverlaps(order *list.List, e1, e2 *HostsMapEntry) {
 		if el1 == nil {
 			el1 = findOrCreateMatchFile(order, e1)
 		}
-		e2._upper = el1
+		// e2 should be placed after all the entries it overlaps with,
+		// so its starting point can only be moved forward
+		if e2._upper == nil || comesAfter(el1, e2._upper) {
+			e2._upper = el1
+		}
 	}
+}
+
+func comesAfter(element, ref *list.Element) bool {
+	for e := ref.Next(); e != nil; e = e.Next() {
+		if e == element {
+			return true
+		}
+	}
+	return false
 }
 
 func findOrCreateMatchFile(order *list.List, e1 *HostsMapEntry) *list.Element {
